@@ -74,6 +74,10 @@ class Cloner:
         self._post_process = post_process
         self._resolve_ref_attrs = resolve_ref_attrs
         self._allow_outer_scope_values = allow_outer_scope_values
+        # Node inputs passed through as outer-scope values (allow_outer_scope_values=True)
+        self._passed_through: list[_core.Value] = []
+        # Outputs of the nodes of the graphs being cloned (they are never outer-scope values)
+        self._own_outputs: set[_core.Value] = set()
 
     @_capture_error_context
     def _get_value(self, value: _core.Value) -> _core.Value | None:
@@ -177,7 +181,13 @@ class Cloner:
                         "but 'allow_outer_scope_values' is set to False. Consider creating a GraphView and add the value to its "
                         "inputs then clone, or setting 'allow_outer_scope_values' to True to allow referencing outer-scope values."
                     )
+                if input in self._own_outputs:
+                    raise ValueError(
+                        f"Value '{input}' used by node '{node}' is used before it is defined; the graph "
+                        "is not topologically sorted. Sort the graph before cloning it."
+                    )
                 # When preserving outer-scope values, pass them through unchanged instead of cloning.
+                self._passed_through.append(input)
                 new_inputs.append(input)
             else:
                 new_inputs.append(self._get_value(input))
@@ -271,11 +281,22 @@ class Cloner:
             self._clone_or_get_value(v, deep_copy=deep_copy)
             for v in graph.initializers.values()
         ]
+        for node in graph:
+            self._own_outputs.update(node.outputs)
         nodes = [self.clone_node(node, deep_copy=deep_copy) for node in graph]
         # Looks up already cloned values. Here we know graph outputs will not be None
         output_values = typing.cast(
             list["_core.Value"], [self._get_value(v) for v in graph.outputs]
         )
+        # A value that was passed through as an outer-scope value but is defined by the graph being
+        # cloned was used before its definition (the nodes are not topologically sorted): the clone
+        # would keep a reference to the original graph's value.
+        for value in self._passed_through:
+            if value in self._value_map:
+                raise ValueError(
+                    f"Value '{value}' is used before it is defined; the graph is not topologically "
+                    "sorted. Sort the graph before cloning it."
+                )
 
         new_graph = _core.Graph(
             input_values,
